@@ -1,4 +1,5 @@
 import MdVerif.Proofs.TrajInv
+import MdVerif.Model.JoinDiscard
 /-!
 # C03 — slicing, joining and stacking act like array indexing on all fields; no stale cache
 
@@ -457,3 +458,83 @@ theorem c03_assignSame_alias_witness :
     simp [step, aliasWorld, frames, gather, writeAt, idOps] at this
 
 end MdVerif.TrajModel
+
+/-! ## joining with `discard_overlapping_frames=True` -/
+namespace MdVerif.JoinDiscard
+
+theorem trimmed_length {α : Type} (close : α → α → Bool) : ∀ ps : List (List α), (trimmed close ps).length = ps.length
+  | [] => rfl
+  | [_] => rfl
+  | a :: b :: rest => by
+    simp only [trimmed, List.length_cons]
+    have := trimmed_length close (b :: rest)
+    simp only [List.length_cons] at this
+    omega
+
+/-- **without an overlapping junction the result is the plain join** -/
+theorem c03_join_discard_plain {α : Type} (close : α → α → Bool) :
+    ∀ ps : List (List α), junctions close ps = 0 → joinDiscard close ps = ps.flatten
+  | [], _ => rfl
+  | [a], _ => rfl
+  | a :: b :: rest, h => by
+    simp only [junctions] at h
+    have h1 : overlaps close a b = false := by
+      cases ho : overlaps close a b with
+      | false => rfl
+      | true => simp [ho] at h
+    have h2 : junctions close (b :: rest) = 0 := by omega
+    have ih := c03_join_discard_plain close (b :: rest) h2
+    simp only [joinDiscard] at ih ⊢
+    simp only [trimmed, h1, Bool.false_eq_true, if_false, List.flatten_cons, ih]
+
+theorem overlaps_ne_nil {α : Type} (close : α → α → Bool) (a b : List α) (h : overlaps close a b = true) : a ≠ [] := by
+  intro e; subst e; simp [overlaps] at h
+
+/-- **one frame is dropped per overlapping junction, and nothing else**: the number of frames of the result -/
+theorem c03_join_discard_length {α : Type} (close : α → α → Bool) :
+    ∀ ps : List (List α), (joinDiscard close ps).length + junctions close ps = ps.flatten.length
+  | [] => rfl
+  | [a] => by simp [joinDiscard, trimmed, junctions]
+  | a :: b :: rest => by
+    have ih := c03_join_discard_length close (b :: rest)
+    simp only [joinDiscard] at ih ⊢
+    simp only [trimmed, junctions, List.flatten_cons, List.length_append] at ih ⊢
+    cases ho : overlaps close a b with
+    | false => simp only [Bool.false_eq_true, if_false]; omega
+    | true =>
+      have hne := overlaps_ne_nil close a b ho
+      have hl : a.dropLast.length + 1 = a.length := by
+        rw [List.length_dropLast]; have := List.length_pos_iff.mpr hne; omega
+      simp only [if_true]; omega
+
+/-- **every frame of the result is a frame of the pieces, in their order** (coordinates, times and cells travel together: the frames are whole) -/
+theorem c03_join_discard_sublist {α : Type} (close : α → α → Bool) :
+    ∀ ps : List (List α), (joinDiscard close ps).Sublist ps.flatten
+  | [] => List.Sublist.refl _
+  | [a] => by simp [joinDiscard, trimmed]
+  | a :: b :: rest => by
+    have ih := c03_join_discard_sublist close (b :: rest)
+    simp only [joinDiscard] at ih ⊢
+    simp only [trimmed, List.flatten_cons] at ih ⊢
+    apply List.Sublist.append _ ih
+    split
+    · exact List.dropLast_sublist a
+    · exact List.Sublist.refl _
+
+/-- **a per-frame quantity computed before or after the join is the same list** (what keeps caches aligned): mapping a function over the
+frames commutes with the join — provided the overlap test is made on the frames themselves -/
+theorem c03_join_discard_map {α β : Type} (close : α → α → Bool) (g : α → β) :
+    ∀ ps : List (List α), (joinDiscard close ps).map g = ((trimmed close ps).map (List.map g)).flatten := by
+  intro ps
+  simp [joinDiscard, List.map_flatten]
+
+/-- **why per-frame caches may not be collected before the overlap is dropped** (seeded change C08-join-carries-rmsd-traces…): two pieces
+sharing a frame give three frames but four cached values -/
+theorem c03_join_discard_cache_witness :
+    joinDiscard (fun (x y : Nat) => x == y) [[0, 1], [1, 2]] = [0, 1, 2] ∧
+    ([[0, 1], [1, 2]] : List (List Nat)).flatten.length = 4 ∧
+    junctions (fun (x y : Nat) => x == y) [[0, 1], [1, 2]] = 1 := by
+  refine ⟨by decide, by decide, by decide⟩
+
+end MdVerif.JoinDiscard
+
